@@ -73,7 +73,8 @@ pub fn all() -> Vec<Check> {
         Check {
             prop: "C10",
             level: "exploration",
-            parts: vec![part(C, 0, 150_000, 15_000_000, "real producer thread x real consumer thread under the baton scheduler (random / sticky / PCT), lock and wake granularity")],
+            parts: vec![part(C, 0, 150_000, 15_000_000, "real producer thread x real consumer thread under the baton scheduler (random / sticky / PCT), lock and wake granularity"),
+                        part(F, 1, 100_000, 10_000_000, "the real hyper connection task as the consumer: polled only when woken, so a wake-up lost after a flush, drop or abort leaves the response incomplete on the wire")],
             rule: "one run = producer program (<= 6 ops of write/flush/wait-until-delivered/abort/drop) x consumer loop (park on Pending, <= 2 spurious re-polls, same or fresh waker) x one schedule; non-trivial = at least one context switch; distinct = distinct (thread, event kind) sequences",
             assumptions: vec!["all state shared between BodyWriter and Body lives under the one instrumented mutex (chunker.rs), so lock-granularity interleaving is complete w.r.t. observable behaviour; a change adding atomics/unsafe shared state would need new scheduling points"],
         },
